@@ -411,3 +411,91 @@ def _upper_forms(an, f, node, depth=0):
         if len(inits) == 1 and inits[0] is not None:
             return _upper_forms(an, f, inits[0], depth + 1)
     return res
+
+
+def covers(an, f, head, body, n):
+    """Does the loop visit exactly the n positions 0 .. n-1 of a sequence, one per iteration?  True for
+      - an index or a pointer cursor that starts at 0 (cursor: offset 0 of its array), is stepped by +1 exactly once on
+        every iteration, and the loop is left only by its head test failing with the variable at n;
+      - the mirror image (starts at n / n-1, stepped by -1, ends at 0).
+    Returns (True, description) or (False, reason).  The head test is evaluated on the interval state: with the variable
+    below n (above 0) the loop must go on, at n (0) it must end; no other edge leaves the body."""
+    from . import absint, atoms, ex, flow
+    t = f.blocks[head].term
+    if not t or "cond" not in t:
+        return False, "the loop has no head test"
+    for b in body:
+        for s2, lab in f.edges(b):
+            if s2 not in body and b != head:
+                return False, "the loop can be left from inside its body (block %d)" % b
+    entry = _entry_state(an, head, body)
+    if entry is None:
+        return False, "no entry state"
+    # candidate variables: locals stepped by one in the body
+    cands = []
+    for b in body:
+        for i in flow.events(f, b):
+            e = f.exprs[i]
+            amt = None
+            if e["k"] == "un" and e["op"] in ("++", "--"):
+                amt = 1 if e["op"] == "++" else -1
+            elif e["k"] == "asg" and e["op"] in ("+=", "-=") and ex.const(f, e["c"][1]) == 1:
+                amt = 1 if e["op"] == "+=" else -1
+            if amt is not None:
+                tgt = f.exprs[ex.skip(f, e["c"][0])]
+                if tgt["k"] == "ref" and tgt.get("dk") == "local":
+                    cands.append((tgt["name"], amt, b, i))
+    for name, amt, b, i in cands:
+        if sum(1 for c in cands if c[0] == name) != 1:
+            continue
+        other = False
+        for sb, si, lhs, var, op, rhs in _stores_in(f, body):
+            if si == i:
+                continue
+            le = f.exprs[ex.skip(f, lhs)] if lhs is not None else None
+            if (var is not None and var["name"] == name) or (le is not None and le["k"] == "ref" and le.get("name") == name):
+                other = True
+        if other:
+            continue
+        # stepped on every iteration: its block dominates every back edge source
+        srcs = [p for p in f.blocks[head].preds if p in body]
+        if not all(flow.dominates(f, b, p) or b == p for p in srcs):
+            continue
+        key = ("iv", name)
+        start = entry.get(key)
+        cur = ("iv", "@" + name)
+        if start is None and cur in entry:
+            start = entry.get(cur)
+            key = cur
+        if start is None or start[0] != start[1]:
+            continue
+        lo, hi = (0, n) if amt == 1 else (0, start[0])
+        if amt == 1 and start[0] != 0:
+            continue
+        if amt == -1 and start[0] not in (n, n - 1):
+            continue
+        # the head test: goes on for every value still to visit, ends at the far end
+        def outcome(v):
+            st = dict(entry)
+            st[key] = (v, v)
+            on = off = False
+            for s2, lab in f.edges(head):
+                s3 = an.xfer_edge(st, head, lab, s2)
+                if s3 is None:
+                    continue
+                if s2 in body:
+                    on = True
+                else:
+                    off = True
+            return on, off
+        if amt == 1:
+            inside = all(outcome(v) == (True, False) for v in (0, 1, n // 2, n - 1))
+            end = outcome(n) == (False, True)
+        else:
+            first = start[0]
+            last_in = 0 if first == n - 1 else 1
+            inside = all(outcome(v) == (True, False) for v in (first, max(last_in, n // 2), last_in))
+            end = outcome(last_in - 1) == (False, True)
+        if inside and end:
+            return True, name
+    return False, "no loop variable that starts at one end, is stepped by one on every iteration and leaves the loop at the other end (%d positions)" % n
